@@ -26,25 +26,25 @@ func cbValues(rm *metricdata.ResourceMetrics) map[string]map[int]float64 {
 			case metricdata.Sum[int64]:
 				for _, p := range d.DataPoints {
 					if v, ok := p.Attributes.Value("cb"); ok {
-						put(m.Name, v.AsInt64(), float64(p.Value))
+						put(ikey(m.Name, m.Description, m.Unit), v.AsInt64(), float64(p.Value))
 					}
 				}
 			case metricdata.Sum[float64]:
 				for _, p := range d.DataPoints {
 					if v, ok := p.Attributes.Value("cb"); ok {
-						put(m.Name, v.AsInt64(), p.Value)
+						put(ikey(m.Name, m.Description, m.Unit), v.AsInt64(), p.Value)
 					}
 				}
 			case metricdata.Gauge[int64]:
 				for _, p := range d.DataPoints {
 					if v, ok := p.Attributes.Value("cb"); ok {
-						put(m.Name, v.AsInt64(), float64(p.Value))
+						put(ikey(m.Name, m.Description, m.Unit), v.AsInt64(), float64(p.Value))
 					}
 				}
 			case metricdata.Gauge[float64]:
 				for _, p := range d.DataPoints {
 					if v, ok := p.Attributes.Value("cb"); ok {
-						put(m.Name, v.AsInt64(), p.Value)
+						put(ikey(m.Name, m.Description, m.Unit), v.AsInt64(), p.Value)
 					}
 				}
 			}
@@ -131,10 +131,10 @@ func (w *world) collectAll(res *result) (byN map[string]map[int]int, sdkCreation
 				ran := ranBy[i][r]
 				found := 0
 				for _, x := range h.obs {
-					v, ok := vals[x.name][r]
+					v, ok := vals[x.key()][r]
 					mult := 0 // handles of one identity are one SDK instrument: their observations add up
 					for _, y := range h.obs {
-						if y.name == x.name {
+						if y.key() == x.key() {
 							mult++
 						}
 					}
@@ -147,6 +147,10 @@ func (w *world) collectAll(res *result) (byN map[string]map[int]int, sdkCreation
 					}
 				}
 				res.Live = append(res.Live, [4]int{r, ran, found, len(h.obs)})
+				if h.creation && !h.dup && ran == 0 && round == 0 && i == 0 {
+					x := h.obs[0]
+					w.note("creation-time callback %d (instrument %q description %q unit %q, %s, meter %d) did not run", r, x.name, x.desc, x.unit, kindNames[x.kind], x.meter)
+				}
 				if h.creation && round == 0 && i == 0 {
 					for k := 0; k < ran; k++ {
 						sdkCreation = append(sdkCreation, [3]int{evSdkReg, r, 0})
